@@ -7,7 +7,7 @@ edit x bridge file -> pass / degraded / FAIL.
 
     VERIF_REPO=/path/to/private/libcbor tools/leaf_mutation.py [--harm] [--edits] [id-prefix ...]
 
-H = one of the 48 independent harmless refactorings (/tmp/harm1, /tmp/harm2: patch.diff applied alone);
+H = one of the 48 independent harmless refactorings (seeded/harmless/out_A..F: patch.diff applied alone);
 P = behaviour-preserving rewrite written for this test; for both every bridge file must still pass
 (`pass`) or the function must have left the supported subset cleanly (`degraded`: the translator
 records translator_unsupported:<function>, `g.. := fb..`, the fallback branch proves the lemma).
@@ -132,7 +132,7 @@ def run_entry(e, targets):
 # ---------------------------------------------------------------------------------------------
 def harm_entries():
     out = []
-    for pat in ("/tmp/harm1/out_*/R*-*", "/tmp/harm2/out_*/R*-*"):
+    for pat in (os.path.join(os.path.dirname(os.path.dirname(os.path.abspath(__file__))), "seeded", "harmless", "out_[A-F]", "R*-*"),):
         for d in sorted(glob.glob(pat)):
             p = os.path.join(d, "patch.diff")
             if os.path.exists(p):
